@@ -40,7 +40,7 @@ def gen_cases(tier: str, seed: int) -> List[Dict[str, Any]]:
     for i in range(n_rule_batches):
         cases.append({"kind": "rules", "n": 500 if q else 1000, "seed": derive_seed(seed, PROPERTY, "rules", i)})
     cases.append({"kind": "unknown", "seed": derive_seed(seed, PROPERTY, "unk"), "n_random": 200 if q else 5000})
-    n_ops = 640 if q else 12000
+    n_ops = 640 if q else 48000
     for i in range(n_ops):
         rng = rng_for(seed, PROPERTY, "op", i)
         names = COLLAPSE_OPS + FIXED_OPS
